@@ -139,6 +139,8 @@ pub struct ChProfile {
     pub dl_short: u32,
     pub dl_past: u32,
     pub max_calls_hint: u32,
+    /// probability of the sole-owner topology (handlers own their downstream client)
+    pub sole_owner: f64,
 }
 
 pub fn strategy(p: &ChProfile) -> BoxedStrategy<ChScenario> {
@@ -168,8 +170,8 @@ pub fn strategy(p: &ChProfile) -> BoxedStrategy<ChScenario> {
     ]);
     let media = p.media.clone();
     let subs = p.subscribers.clone();
-    (1usize..=3, proptest::sample::select(media), proptest::sample::select(subs), proptest::collection::vec(op, 0..p.max_ops))
-        .prop_map(|(depth, medium, subscriber, ops)| ChScenario { cfg: ChainCfg { depth, medium, subscriber }, ops })
+    (1usize..=3, proptest::sample::select(media), proptest::sample::select(subs), proptest::bool::weighted(p.sole_owner), proptest::collection::vec(op, 0..p.max_ops))
+        .prop_map(|(depth, medium, subscriber, sole_owner, ops)| ChScenario { cfg: ChainCfg { depth, medium, subscriber, sole_owner }, ops })
         .boxed()
 }
 
@@ -190,6 +192,7 @@ pub fn c07_profile() -> ChProfile {
         dl_short: 5,
         dl_past: 2,
         max_calls_hint: 6,
+        sole_owner: 0.0,
     }
 }
 
@@ -316,6 +319,7 @@ pub fn c18_profile() -> ChProfile {
         dl_short: 1,
         dl_past: 0,
         max_calls_hint: 8,
+        sole_owner: 0.0,
     }
 }
 
@@ -463,6 +467,7 @@ pub fn c04c_profile() -> ChProfile {
         dl_short: 0,
         dl_past: 0,
         max_calls_hint: 6,
+        sole_owner: 0.35,
     }
 }
 
@@ -523,6 +528,9 @@ pub fn c04c_check(sc: &ChScenario) -> CaseResult {
         if depth >= 2 && unfinished_leaf {
             classes.insert("depth>=2-with-unfinished-leaf");
             nontrivial = true;
+        }
+        if sc.cfg.sole_owner && depth >= 2 && v.sent.contains_key(&(1, c.body)) {
+            classes.insert("abandoned-handler-owned-its-downstream-client");
         }
     }
     // no handler polled after its own hop read the cancel is covered by the single-channel part
